@@ -806,6 +806,86 @@ func runC16(r *Run) {
 		}
 		r.Floor("R14", "precompile functions that handle a coin list", nF, 20)
 	}
+	r.Rule("R15", "TABLE.answer-fields-carry-their-namesakes: the output structs the read-only methods pack (ValidatorInfo, the delegation / unbonding / redelegation entries, …) repeat field names of the native responses. Wherever a precompile function stores into field F of such a struct a value that comes from a native (cosmos-sdk / ibc-go) struct which itself has a field F, the value is read from that field F (or its getter GetF / IsF) — not from a sibling field or a derived method of the same object (BondedTokens() for Tokens is zero for every validator outside the bonded set, while the native query reports its tokens)")
+	{
+		nFld := 0
+		hasField := func(t types.Type, name string) bool {
+			if p, ok := t.(*types.Pointer); ok {
+				t = p.Elem()
+			}
+			st, ok := t.Underlying().(*types.Struct)
+			if !ok {
+				return false
+			}
+			for i := 0; i < st.NumFields(); i++ {
+				if st.Field(i).Name() == name {
+					return true
+				}
+			}
+			return false
+		}
+		isNative := func(t types.Type) bool {
+			pp := namedPkgPath(t)
+			return pp != "" && !isHaqqPath(pp) && (strings.Contains(pp, "cosmos-sdk/x/") || strings.Contains(pp, "ibc-go"))
+		}
+		for _, fn := range P.Funcs {
+			if !strings.Contains(fnPkgPath(fn), "/precompiles/") || strings.Contains(fnPkgPath(fn), "/testutil") || isTestSupport(P, fn) || fn.Synthetic != "" {
+				continue
+			}
+			seen := map[string]int{}
+			eachInstr(fn, func(in ssa.Instruction) {
+				st, ok := in.(*ssa.Store)
+				if !ok {
+					return
+				}
+				fa, ok := st.Addr.(*ssa.FieldAddr)
+				if !ok {
+					return
+				}
+				sn, f, ok := fieldOfAddr(st.Addr)
+				if !ok || !isHaqqPath(namedPkgPath(deref(fa.X.Type()))) || !strings.Contains(namedPkgPath(deref(fa.X.Type())), "/precompiles/") {
+					return
+				}
+				// native objects the value is taken from that have a field of the same name
+				sameName, namesake := false, false
+				backSlice(st.Val).Any(func(v ssa.Value) bool {
+					switch x := v.(type) {
+					case *ssa.FieldAddr:
+						if isNative(deref(x.X.Type())) && hasField(deref(x.X.Type()), f) {
+							sameName = true
+							if _, ff, ok := fieldOfAddr(x); ok && ff == f {
+								namesake = true
+							}
+						}
+					case *ssa.Field:
+						if isNative(x.X.Type()) && hasField(x.X.Type(), f) {
+							sameName = true
+							if _, ff, ok := fieldOfValue(x); ok && ff == f {
+								namesake = true
+							}
+						}
+					case *ssa.Call:
+						ci := callInfo(x)
+						if len(x.Call.Args) > 0 && isNative(deref(x.Call.Args[0].Type())) && hasField(deref(x.Call.Args[0].Type()), f) {
+							sameName = true
+							if ci.Name == "Get"+f || ci.Name == "Is"+f {
+								namesake = true
+							}
+						}
+					}
+					return false
+				})
+				if !sameName {
+					return
+				}
+				nFld++
+				seen[sn+"."+f]++
+				r.Check(namesake, "R15", fmt.Sprintf("%s#%s.%s-%d-from-its-namesake", fnID(fn), sn, f, seen[sn+"."+f]), P.Pos(instrPos(in)), "read from the native field of the same name",
+					"the answer field "+sn+"."+f+" is filled from a native object that has a field "+f+" — but not from that field: the precompile reports another figure than the native query (e.g. BondedTokens() instead of Tokens: zero for a jailed or unbonding validator)")
+			})
+		}
+		r.Floor("R15", "answer fields with a native namesake", nFld, 20)
+	}
 	// RunSetup
 	if rs, ok := P.FnOK("(precompiles/common.Precompile).RunSetup"); ok {
 		okMeter := false
